@@ -65,7 +65,18 @@ def curated():
                          F("w", dict(k="tuple", ts=[G("Box", L(1)), G("Cell", L(6)), G("RefCell", L(9)), G("Cow", L(13)), G("Rc", L(1)),
                                                      G("Arc", A(2, L(2))), G("Mutex", L(6)), G("RwLock", L(1))])),
                          F("s", dict(k="strleaf")), F("dn", dict(k="deny", tid=6))]))
+    # 6. compound leaves (arrays / tuples / Option inside one Leaf): partially valid payloads
+    out.append(ST("C6", [F("p", L(12)), F("q", L(14)), F("o", L(11)), F("s", L(13)), F("g", G("Option", L(12))), F("a", A(2, L(14)))]))
     res = []
     for t in out:
         res.append((t, [S.value(rng, t) for _ in range(2)]))
     return res
+
+
+def dedicated():
+    """programs outside the properties' preconditions, run only in the stream of the named property and
+    matched against known_findings.txt: (type, states, property, finding class)"""
+    rng = random.Random(20261001)
+    # the derive macro accepts two retained children with the same name (rename collision)
+    dup = ST("Dup", [F("a", L(1)), F("b", L(3), rename="a"), F("c", A(2, L(1)))])
+    return [(dup, [S.value(rng, dup) for _ in range(2)], "C04", "dup-names")]
